@@ -353,14 +353,22 @@ def some_edges(f):
             if x.k == "field":
                 tgt = arms[0] if e.a.path.endswith("is_none") else t["otherwise"]
                 out[(b, tgt)] = x.b.split(".")[-1]
-        elif e.k == "discr" and e.a.k == "field" and 1 in arms:
-            out[(b, arms[1])] = e.a.b.split(".")[-1]
+        elif e.k == "discr" and _peel_ref(e.a).k == "field" and 1 in arms:
+            out[(b, arms[1])] = _peel_ref(e.a).b.split(".")[-1]
         else:
             oe = option_eq_some(e)
             if oe is not None and 0 in arms:
                 fld, val, is_ne = oe
                 out[(b, arms[0] if is_ne else t["otherwise"])] = fld
     return out
+
+
+def _peel_ref(e, depth=0):
+    """`opt.as_ref()` / `as_mut()` / `as_deref()` keep Some-ness"""
+    while e is not None and e.k == "call" and e.a.name in ("as_ref", "as_mut", "as_deref", "as_deref_mut") and e.a.args and depth < 4:
+        e = call_arg_exprs(e.a)[0]
+        depth += 1
+    return e
 
 
 def option_eq_some(e):
@@ -539,6 +547,10 @@ class Discharger:
             facts = L.facts_at(f, s.bb, econs) + contract + resize_facts(f, lctx, s.bb)
             verdict = self.discharge(f, lctx, s, facts, se, econs)
             results.append((s, verdict))
+        # obligations produced while linearising (value-preserving casts of parameters)
+        for goal, desc in list(lctx.side_goals):
+            s = Site(f, 0, "cast", desc, [(goal, desc)], f.loc())
+            results.append((s, self.discharge(f, lctx, s, contract, se, econs)))
         return results
 
     def substitute(self, f, lctx, c, g, con, binding):
@@ -627,6 +639,32 @@ class Discharger:
                 self.stats["environment"] += 1
                 return ("assumed", "lock/protect refusal (environment), decided by C19")
             # Protected invariant: `None => panic!("invalid array")`
+            # `let Record { field: Some(x), .. } = parse(..)? else { unreachable!() }`: the panic arm needs some
+            # field to be None, which the callee's Ok-postcondition excludes - cut the not-Some edge of every
+            # test of such a field; the panic must become unreachable
+            cut, why = [], []
+            for b in range(f.n):
+                t = f.blocks[b]["t"]
+                if t["k"] != "switch":
+                    continue
+                e = expr_of_operand(f, t["x"])
+                if e.k == "discr" and _peel_ref(e.a).k == "field":
+                    fe = _peel_ref(e.a)
+                    base = fe.a
+                    while base is not None and base.k == "field":
+                        base = base.a
+                    inner = None
+                    if base is not None and base.k == "call":
+                        inner = call_arg_exprs(base.a)[0] if base.a.path == "std::ops::Try::branch" else base
+                    if inner is not None and inner.k == "call":
+                        tg = prog.callee_fns(inner.a)
+                        fld = fe.b.split(".")[-1]
+                        some_t = [tb for v_, tb in t["arms"] if v_ == 1]
+                        if tg and some_t and all(fld in ok_postcondition_some(prog, g_, self.post_memo) for g_ in tg):
+                            cut += [(b, x_) for x_ in f.succ[b] if x_ != some_t[0]]
+                            why.append(fld)
+            if cut and s.bb not in f.reachable(0, cut_edges=cut):
+                return ("ok", "the panic arm requires one of %s to be None, excluded by the callee's Ok-postcondition" % sorted(set(why)))
             for b in f.dom.get(s.bb, ()):
                 t = f.blocks[b]["t"]
                 if t["k"] == "switch":
@@ -758,9 +796,13 @@ class Discharger:
                                 for coef, const, rel in ok_postcondition_values(self.prog, g, self.post_memo).get(m.group(2), []):
                                     out.append(({v: coef, 1: const}, rel))
                             break
+                self._found_ty = None
                 e = self.find_expr(f, v[1])
                 if e is not None:
                     r = range_of(f, e)
+                    if not r and self._found_ty in ("u8", "u16", "u32", "bool"):
+                        # the value lives in a local of a narrow unsigned type (e.g. a payload bound by a pattern)
+                        r = {"u8": (0, 255), "u16": (0, 65535), "u32": (0, (1 << 32) - 1), "bool": (0, 1)}[self._found_ty]
                     if r:
                         out.append(L.ge(L.lin_var(v), L.lin_const(r[0])))
                         out.append(L.ge(L.lin_const(r[1]), L.lin_var(v)))
@@ -772,6 +814,14 @@ class Discharger:
                                 out.append(L.ge(la, L.lin_var(v)))
         return out
 
+    def type_of_text(self, f, text):
+        """type of a plain local whose expression prints as `text` (the local a payload was bound to)"""
+        for b, i, st in f.assigns():
+            if not st["place"]["p"] and st["rv"]["k"] == "use" and st["rv"]["x"].get("k") in ("copy", "move"):
+                if deep_repr(expr_of_operand(f, st["rv"]["x"])) == text:
+                    return f.locals[st["place"]["l"]].get("t")
+        return None
+
     def find_expr(self, f, text):
         for b in range(f.n):
             for st in f.blocks[b]["s"]:
@@ -781,6 +831,7 @@ class Discharger:
                     if o and o.get("k") in ("copy", "move"):
                         e = expr_of_operand(f, o)
                         if deep_repr(e) == text:
+                            self._found_ty = f.locals[o["l"]].get("t") if not o["p"] else self.type_of_text(f, text)
                             return e
             t = f.blocks[b]["t"]
             if t["k"] == "call":
